@@ -545,6 +545,18 @@ def fluent_descr(f, args, val, types):
     return {"name": f, "sig": [[o, types.get(o, "a")] for o in args], "val": val, "rep": []}
 
 
+def near_values(x):
+    """values a comparison of NUMBERS cannot tell from x, or only just: the other zero, the same datum again, the
+    neighbours by one ulp, the negation"""
+    if math.isnan(x):
+        return [x, 0.0]
+    if x == 0:
+        return [-x, -x, -x, x, 5e-324]
+    if math.isinf(x):
+        return [-x, x, math.copysign(1.7976931348623157e308, x)]
+    return [-x, x, math.nextafter(x, math.inf), math.nextafter(x, -math.inf)]
+
+
 def mutate_abstract(a, m):
     """what the in-place change means for the facts and fluents the state holds (None: no a-priori truth)"""
     facts = [list(x) for x in a["facts"]]
@@ -563,6 +575,11 @@ def mutate_abstract(a, m):
     elif k == "rename-fact":
         facts = [[m["new"], x[1]] if x == [m["name"], m["args"]] else x for x in facts]
         facts = [x for i, x in enumerate(facts) if x not in facts[:i]]
+    elif k == "remap-fact":
+        facts = [[m["name"], m["new_args"]] if x == [m["name"], m["args"]] else x for x in facts]
+        facts = [x for i, x in enumerate(facts) if x not in facts[:i]]
+    elif k == "remap-fluent":
+        fl = [[f, m["new_args"], w] if (f, a_) == (m["name"], m["args"]) else [f, a_, w] for f, a_, w in fl]
     elif k == "set-value":
         v = fhex(float(m["ival"])) if "ival" in m else m["val"]
         fl = [[f, a_, v] if (f, a_) == (m["name"], m["args"]) else [f, a_, w] for f, a_, w in fl]
@@ -600,10 +617,15 @@ def choose_mutation(rng, t, a, objs, canon, free, ptxt, effects_ok, same_valued)
     kinds += ["discard-fact"] * 5 + ["del-group", "set-group", "add-fact-present"] if a["facts"] else ["discard-absent"]
     kinds += ["set-value"] * 4 + ["del-fluent", "put-fluent-existing"] if a["fluents"] else []
     kinds += ["put-fluent"] * 2 if fabsent else []
+    # the fact / fluent OBJECTS edited in place: another name (free vocabulary only), other objects
+    remap_f = [(x, y) for x in a["facts"] for y in absent if y[0] == x[0]]
+    remap_fl = [(x, y) for x in have for y in fabsent if y[0] == x[0]]
+    kinds += ["remap-fact"] * 3 if remap_f else []
+    kinds += ["remap-fluent"] * 3 if remap_fl else []
     if free and a["facts"]:
-        kinds += ["rename-fact"]
+        kinds += ["rename-fact"] * 3
     if free and a["fluents"]:
-        kinds += ["rename-fluent"]
+        kinds += ["rename-fluent"] * 3
     if effects_ok:
         calls = [(n, args) for n, args in route_calls(rng, objs, k=99) if succ_want(a, n, args) is not None]
         kinds += ["effects"] * 5 if calls else []
@@ -626,12 +648,20 @@ def choose_mutation(rng, t, a, objs, canon, free, ptxt, effects_ok, same_valued)
         x = rng.choice(a["facts"])
         same_arity = [p for p, sg in sigs.items() if len(sg) == len(x[1]) and p != x[0]]
         m.update(kind="rename-fact", name=x[0], args=x[1], new=rng.choice(same_arity) if same_arity else x[0] + "x")
+    elif k == "remap-fact":
+        x, y = rng.choice(remap_f)
+        m.update(kind="remap-fact", name=x[0], args=x[1], new_args=y[1])
+    elif k == "remap-fluent":
+        x, y = rng.choice(remap_fl)
+        m.update(kind="remap-fluent", name=x[0], args=x[1], new_args=y[1])
     elif k == "set-value":
         f, a_, v = rng.choice(a["fluents"])
         if rng.random() < 0.08:
             m.update(kind="set-value", name=f, args=a_, ival=rng.choice(INT_VALUES[:7]))
+        elif rng.random() < 0.45:
+            m.update(kind="set-value", name=f, args=a_, val=fhex(rng.choice(near_values(unhex(v)))))
         else:
-            m.update(kind="set-value", name=f, args=a_, val=v if rng.random() < 0.1 else fhex(rng.choice(ROUTE_VALUES)))
+            m.update(kind="set-value", name=f, args=a_, val=fhex(rng.choice(ROUTE_VALUES)))
     elif k in ("put-fluent", "put-fluent-existing"):
         f, a_ = rng.choice(fabsent if k == "put-fluent" else have)
         m.update(kind="put-fluent", args=a_, key="(%s %s)" % (f, " ".join(a_)),
@@ -642,7 +672,8 @@ def choose_mutation(rng, t, a, objs, canon, free, ptxt, effects_ok, same_valued)
     elif k == "rename-fluent":
         f, a_, _ = rng.choice(a["fluents"])
         same_arity = [g for g, sg in fsigs.items() if len(sg) == len(a_) and g != f and [g, a_] not in have]
-        m.update(kind="rename-fluent", name=f, args=a_, new=rng.choice(same_arity) if same_arity else f + "x")
+        fresh = [n for n in (f + "x", f + "y", f + "-z") if [n, a_] not in have]     # never onto a fluent the state holds
+        m.update(kind="rename-fluent", name=f, args=a_, new=rng.choice(same_arity) if same_arity else fresh[0])
     elif k == "rebuild-dicts":
         m.update(kind="rebuild-dicts", reverse=rng.random() < 0.5)
     elif k == "flip-init":
@@ -665,6 +696,8 @@ def omo_input(rng, n_steps, free):
     st = route_state(rng, objs, False, sigs, fsigs)
     if not st["facts"] and rng.random() < 0.7:
         st["facts"] = rng.sample(fact_universe(objs, sigs), 1)
+    if st["fluents"] and rng.random() < 0.5:          # a zero of either sign is among the values
+        st["fluents"][rng.randrange(len(st["fluents"]))][2] = fhex(rng.choice([0.0, -0.0]))
     ptxt = None if free else problem_text(rng, objs, st)
     if free:
         start = [dict(ctor_from_abstract(st, types=dict(objs)), want=st, kind="omo:start:ctor"),
@@ -704,6 +737,8 @@ def omo_input(rng, n_steps, free):
             undo = {"target": t, "kind": "add-fact", "fact": fact_descr(x, canon[t], sigs), "key": fact_key(x, canon[t], sigs)}
         if m["kind"] == "effects":
             effects_done.add(t)
+        if m["kind"] in ("remap-fluent", "rename-fluent"):
+            canon[t] = False         # the dict key no longer is the fluent's text: no effects / successors from here on
         new = mutate_abstract(cur[t], m)
         cur = list(cur)
         cur[t] = new
